@@ -84,7 +84,7 @@ ASSUMPTIONS = [
     "an exception escaping sim.run() from repo code is part of the behaviour being compared (same exception everywhere = "
     "deterministic), not a C03 violation by itself",
 ]
-EXPECTED_PROBES = ["fault.after_others", "fault.wall_offset", "fault.wall_fast", "fault.wall_frozen",
+EXPECTED_PROBES = ["fault.after_others", "fault.after_sibling", "probe.boundary_seed_everywhere", "fault.wall_offset", "fault.wall_fast", "fault.wall_frozen",
                    "fault.hashseed_4242", "fault.fresh_spawn", "probe.event_counter_dirty",
                    "probe.module_random_drawn", "probe.numpy_random_drawn", "probe.uuid4_called_by_model",
                    "probe.wall_clock_read_by_model", "obs.random_seed_only_runs"]
@@ -125,7 +125,24 @@ _PICK = [m for m in MODELS for _ in range(WEIGHT.get(m, 1))]
 def _gen_job(rng, name=None, weighted=True):
     if name is None:
         name = _PICK[rng.randrange(len(_PICK))] if weighted else MODELS[rng.randrange(len(MODELS))]
-    return {"model": name, "params": ZOO[name]["gen"](rng), "seed": rng.randrange(1, 2**31 - 1)}
+    job = {"model": name, "params": ZOO[name]["gen"](rng), "seed": rng.randrange(1, 2**31 - 1), "seed_mode": "derived"}
+    u = rng.random()
+    if u < 0.3:
+        # boundary user seeds, handed unchanged to every seed= parameter of the model (0 is a legal seed, not "no seed")
+        job["seed"] = rng.choice(BOUNDARY_SEEDS)
+        job["seed_mode"] = "same"
+    elif u < 0.4:
+        job["seed_mode"] = "same"
+    return job
+
+
+BOUNDARY_SEEDS = [0, 0, 0, 1, 2**31 - 1, 2**32]    # non-negative: several seed= parameters are packed as unsigned integers
+
+
+def _sibling(job: dict) -> dict:
+    """The same model with the same structural parameters and different seeds (a user's second experiment)."""
+    s = job["seed"]
+    return {**job, "seed": (s * 48271 + 11) % (2**31 - 1) if s not in (1,) else 2}
 
 
 def gen(rng, tier):
@@ -154,6 +171,7 @@ def gen(rng, tier):
     wall = [m for m in WALL_MODES if rng.random() < 0.5]
     sc["plan"] = {
         "repeat": rng.random() < 0.85,
+        "sibling": rng.random() < 0.7,
         "after_others": n_others > 0,
         "wall": wall,
         # one or both alternative hash seeds (each costs one more interpreter)
@@ -336,12 +354,16 @@ def first_difference(ref: dict, other: dict) -> tuple[str, str]:
     return "digest", "digests differ although logs and statistics compare equal"   # cannot happen
 
 
+def _job(d):
+    return {"model": d["model"], "params": d["params"], "seed": d["seed"], "seed_mode": d.get("seed_mode", "derived")}
+
+
 def _subject(sc):
-    return {"model": sc["model"], "params": sc["params"], "seed": sc["seed"]}
+    return _job(sc)
 
 
 def _others(sc):
-    return [{"model": j["model"], "params": j["params"], "seed": j["seed"]} for j in sc.get("others", [])]
+    return [_job(j) for j in sc.get("others", [])]
 
 
 def _program(sc) -> list:
@@ -352,6 +374,10 @@ def _program(sc) -> list:
     if plan.get("repeat"):
         jobs0.append(subj)
         marks.append(("repeat", len(jobs0) - 1))
+    if plan.get("sibling"):
+        jobs0.append(_sibling(subj))
+        jobs0.append(subj)
+        marks.append(("after-sibling", len(jobs0) - 1))
     if plan.get("after_others") and others:
         jobs0.extend(others)
         jobs0.append(subj)
@@ -513,8 +539,13 @@ def _cohort_program(sc):
     r = plan.get("rotate", 1) % k
     order = list(range(k))[r:] + list(range(k))[:r]
     for h in plan.get("hs", []):
-        prog.append({"hs": h, "how": "fork", "jobs": [members[j] for j in order],
-                     "marks": [(("hashseed", j), pos) for pos, j in enumerate(order)]})
+        # each member right after its sibling (same model and structure, other seeds) ran in that interpreter
+        jobsb, marksb = [], []
+        for j in order:
+            jobsb.append(_sibling(members[j]))
+            jobsb.append(members[j])
+            marksb.append((("hashseed+after-sibling", j), len(jobsb) - 1))
+        prog.append({"hs": h, "how": "fork", "jobs": jobsb, "marks": marksb})
     if plan.get("fresh"):
         rev = order[::-1]
         prog.append({"hs": 1, "how": "spawn", "jobs": [members[j] for j in rev],
@@ -550,6 +581,8 @@ def _run_cohort(sc):
             bad.append((j, kind, hs))
     counters.setdefault("probe.event_counter_dirty", 0)
     states, deliveries, sim_s = [], 0, 0.0
+    counters["probe.boundary_seed_everywhere"] = sum(1 for m in members if m["seed_mode"] == "same" and m["seed"] in BOUNDARY_SEEDS)
+    counters["probe.seed_zero_everywhere"] = sum(1 for m in members if m["seed_mode"] == "same" and m["seed"] == 0)
     for j, (m, ref) in enumerate(zip(members, refs)):
         counters[f"model.{m['model']}"] = counters.get(f"model.{m['model']}", 0) + 1
         obs = ref["obs"]
@@ -580,12 +613,14 @@ def _run_cohort(sc):
             single["others"] = [m for i, m in enumerate(members) if i != j]
             wall = sc["plan"].get("wall", [])
             alt = sorted(set(sc["plan"].get("hs", [])) | ({hs} if hs in HASHSEEDS[1:] else set()))
-            single["plan"] = {"repeat": True, "after_others": bool(single["others"]), "wall": [wall[j]] if j < len(wall) else [], "hs": alt}
+            single["plan"] = {"repeat": True, "sibling": True, "after_others": bool(single["others"]),
+                              "wall": [wall[j]] if j < len(wall) else [], "hs": alt}
             first = kind.split("+")[-1]
             fb = (KIND_SIG.get(first, first), kind, hs)
             verdict = _confirm(single, _program(single), None, fb)
             if verdict[0].split("/")[-2] == "unstable":
-                single["plan"] = {"repeat": True, "after_others": bool(single["others"]), "wall": list(WALL_MODES), "hs": list(HASHSEEDS[1:])}
+                single["plan"] = {"repeat": True, "sibling": True, "after_others": bool(single["others"]), "wall": list(WALL_MODES),
+                                  "hs": list(HASHSEEDS[1:])}
                 verdict = _confirm(single, _program(single), None, fb)
             verdicts.append((j, verdict))
             if not _is_known(verdict[0]):
